@@ -161,6 +161,10 @@ def rule_f(ctx):
             nm = cd.split("::")[-1]
             strish = cd.startswith("nom::") or "<impl str>" in cd or "str::" in cd or "String" in cd
             raw = nm in RAW_SCANNERS and strish and "PartialEq" not in cd
+            if raw and nm in ("strip_prefix", "starts_with", "ends_with") and len(t["args"]) > 1:
+                k = op_const(t["args"][1]) or {}
+                if k.get("ty") == "char" or (isinstance(k.get("v"), str) and k["v"].startswith('"')):
+                    raw = False   # a match of a constant character / string at the current position is a token match, like nom's tag()
             # a loop over the characters of the text
             if not raw and nm == "next" and ("Chars<" in cd or "CharIndices<" in cd or "Bytes<" in cd) and bb in b.reach_from(t["target"]) if t.get("target") is not None else False:
                 raw = True
